@@ -309,6 +309,11 @@ pub fn run_sweep(prop: &dyn Property, tier: Tier, seed: u64, workers: usize) -> 
         .ok()
         .and_then(|s| s.parse::<u64>().ok())
         .unwrap_or(budget.runs);
+    // VERIF_BUDGET_DIV=n: a fraction of the tier's budget (cross-property bench)
+    let runs = match std::env::var("VERIF_BUDGET_DIV").ok().and_then(|s| s.parse::<u64>().ok()) {
+        Some(d) if d > 1 => (runs / d).max(1),
+        _ => runs,
+    };
     let exe = std::env::current_exe().expect("current_exe");
     let (tx, rx) = mpsc::channel::<Msg>();
     let mut children = vec![];
